@@ -187,6 +187,42 @@ def check_config(cfg, seed, part):
     if set(init) != set(want_init):
         part.violation(dict(case0, part="mcmc_init"), "mcmc_init keys differ from the prior's parameters", expected=sorted(want_init), observed=sorted(init))
         return
+    # (5) from_inference_data: MCMC draws come back as samples in the PRIOR's units, with the data's reference epoch
+    try:
+        import arviz as az
+
+        nd = 4
+        post = {}
+        for k, w in want_init.items():
+            post[k] = (np.array(w) * (1.0 + 0.1 * np.arange(nd)))[None, :]
+        post["logp"] = (-3.0 - np.arange(nd))[None, :]
+        post["ln_likelihood"] = (-2.0 - np.arange(nd))[None, :]
+        post["ln_prior"] = (-1.0 - 0.5 * np.arange(nd))[None, :]
+        div = np.array([[False, True, False, False]])
+        idata = az.from_dict({"posterior": post, "sample_stats": {"diverging": div}})
+        fs = tj.JokerSamples.from_inference_data(prior, idata, data, prune_divergences=True)
+        keep = ~div[0]
+        import thejoker.units as xu
+
+        for k, w in want_init.items():
+            unit = getattr(prior.pars[k], xu.UNIT_ATTR_NAME)
+            got = fs[k].to_value(unit) if hasattr(fs[k], "to_value") else np.asarray(fs[k])
+            if not np.allclose(got, post[k][0][keep], rtol=1e-12, atol=0):
+                part.violation(dict(case0, part="from_inference_data", par=k), "from_inference_data does not return the MCMC draws as values in the prior's own units "
+                               "(divergent draws removed)", expected=post[k][0][keep], observed=got)
+                return
+        if fs.t_ref is None or abs(float(fs.t_ref.tcb.mjd) - dd["t_ref"]) > 1e-9 or fs.poly_trend != pt_ or fs.n_offsets != no:
+            part.violation(dict(case0, part="from_inference_data"), "from_inference_data: reference epoch / poly_trend / n_offsets not those of the data and prior",
+                           expected=(dd["t_ref"], pt_, no), observed=(None if fs.t_ref is None else float(fs.t_ref.tcb.mjd), fs.poly_trend, fs.n_offsets))
+            return
+        for col, src in (("ln_posterior", "logp"), ("ln_likelihood", "ln_likelihood"), ("ln_prior", "ln_prior")):
+            if not np.array_equal(np.asarray(fs[col], dtype=float), post[src][0][keep]):
+                part.violation(dict(case0, part="from_inference_data"), f"from_inference_data: column {col} is not the chain's {src}", expected=post[src][0][keep],
+                               observed=np.asarray(fs[col], dtype=float))
+                return
+    except Exception as e:
+        part.violation(dict(case0, part="from_inference_data"), f"from_inference_data raised {type(e).__name__}: {str(e)[:200]}")
+        return
     # compile the model's outputs once
     try:
         names = ["model_rv", "ln_likelihood", "logp", "ln_prior"]
@@ -290,7 +326,7 @@ def main():
         "model_rv / ln_likelihood / logp(jacobian=False) are compiled once with RVs replaced by values and evaluated on 4 theta x 3 "
         "linear-parameter points: model_rv = M(theta) x (reference Kepler solver and design matrix), ln_likelihood = ln N(y|model, "
         "sigma^2+s^2), differences of the log-density = differences of declared prior + Gaussian term, mcmc_init = median-period sample "
-        "in the prior's units. Non-trivial: a configuration passing all four.",
+        "in the prior's units, and JokerSamples.from_inference_data gives the chain back in the prior's units with divergent draws removed. Non-trivial: a configuration passing all four.",
     )
     cfgs = configs(chk.quick)
     chk.bounds = {"configurations": len(cfgs), "points_per_configuration": 12}
